@@ -292,4 +292,26 @@ def runRequests (s : Spec) (A : QMat) (c : Option QVec) : VMemo â†’ List Bool â†
     let (st2, os) := runRequests s A c st1 ds
     (st2, o :: os)
 
+/-! ### the variant loops: `estimate` and `simulate` treat the variants one by one -/
+
+/-- `for vid, dataslate_v in â€¦: _estimate_variant(â€¦)`: one estimate per data variant, same dimensions and options -/
+def estimateVariants (s : Spec) (dof : Bool) (priors : Option (List Prior)) (datas : List (OMat Ã— OMat)) :
+    List (Except Err Estimate) :=
+  datas.map (fun d => estimate s dof d.1 d.2 priors)
+
+/-- one variant of a simulation: its own coefficients (`A`, `B`, `c`), its own exogenous data and residuals, its own path -/
+structure SimVariant where
+  A : QMat
+  B : QMat
+  c : QVec
+  X : QMat
+  E : QMat
+  path0 : QMat
+  deriving Repr
+
+/-- `for vid, model_v, dataslate_v in zip(â€¦)`: every variant is simulated with ITS OWN system (in particular its own exogenous
+impact `B_v x_v`) -/
+def simulateVariants (s : Spec) (ts : List Nat) (vs : List SimVariant) : List QMat :=
+  vs.map (fun v => simulate s v.A v.B v.c v.X v.E v.path0 ts)
+
 end IrisVerif.RedVar
